@@ -127,6 +127,15 @@ int main(int argc, char **argv) {
         if (argc > 8) parse_shape_arg(argv[8]);
         if (width == 1 && off < font.size()) font[off] = uint8_t(val);
         else if (width == 2 && off + 1 < font.size()) { font[off] = uint8_t(val >> 8); font[off + 1] = uint8_t(val); }
+        else if (width == 3 && off + 1 < font.size()) {
+            size_t o2 = off + 2 * (val >> 4); unsigned v = val & 15;
+            static const int DA[] = {1, 1, -1}, DB[] = {1, -1, 1};
+            if (o2 + 1 < font.size() && v < 3) {
+                unsigned a = (font[off] << 8) | font[off + 1], b = (font[o2] << 8) | font[o2 + 1];
+                unsigned na = (a + DA[v]) & 0xFFFF, nb = (b + DB[v]) & 0xFFFF;
+                font[off] = uint8_t(na >> 8); font[off + 1] = uint8_t(na); font[o2] = uint8_t(nb >> 8); font[o2 + 1] = uint8_t(nb);
+            }
+        }
         else if (width == 0 && off + 16 <= font.size()) { font[off + 12] = uint8_t(val >> 24); font[off + 13] = uint8_t(val >> 16); font[off + 14] = uint8_t(val >> 8); font[off + 15] = uint8_t(val); }
         note("one", off, val, width, opts, src);
         run_one(font, opts, src);
@@ -163,6 +172,23 @@ int main(int argc, char **argv) {
             if ((o & 1) == 0 && o + 1 < font.size()) {
                 for (uint16_t w : WV) { font[o] = uint8_t(w >> 8); font[o + 1] = uint8_t(w); note("sweep", o, w, 2, opts, src); run_one(font, opts, src); }
                 font[o] = save0; font[o + 1] = save1;
+            }
+            if (g_shape && (o & 1) == 0) {
+                // coordinated pairs (width 3 = pair): two nearby 16-bit fields moved together by +-1, so that redundant header
+                // fields (numIDs / rangeShift of a lookup class, search headers) stay mutually consistent; val = (k << 4) | variant
+                for (unsigned k = 1; k <= 3; ++k) {
+                    size_t o2 = o + 2 * k;
+                    if (o2 + 1 >= font.size()) break;
+                    uint8_t s2 = font[o2], s3 = font[o2 + 1];
+                    unsigned a = (save0 << 8) | save1, b = (s2 << 8) | s3;
+                    static const int DA[] = {1, 1, -1}, DB[] = {1, -1, 1};
+                    for (unsigned v = 0; v < 3; ++v) {
+                        unsigned na = (a + DA[v]) & 0xFFFF, nb = (b + DB[v]) & 0xFFFF;
+                        font[o] = uint8_t(na >> 8); font[o + 1] = uint8_t(na); font[o2] = uint8_t(nb >> 8); font[o2 + 1] = uint8_t(nb);
+                        note("sweep", o, (k << 4) | v, 3, opts, src); run_one(font, opts, src);
+                    }
+                    font[o] = save0; font[o + 1] = save1; font[o2] = s2; font[o2 + 1] = s3;
+                }
             }
         }
     } else if (mode == "fuzzfile") {
